@@ -418,4 +418,15 @@ def holdsRelayIO (c : IPText) (dns : Bool) (answer : Bool → Bytes → Bytes) (
   (o.rx.map (udpExpect c)).isPerm ((relayExpect c ds).map
     (fun d => some ⟨rebuiltHost c d.host, d.port, answer (isDnsRoute dns d) d.payload⟩))
 
+/-- **The adapter's whole connection handler, no session attached**: the connection is always
+closed; an accepted negotiation is consumed exactly and answered, after the replies owed, with a
+failure reply (there is nothing to connect through); a rejected one as in `holdsAd`. -/
+def holdsAdConn (cfg : AdCfg) (input written : Bytes) (consumed : Nat) (closed : Bool) : Bool :=
+  closed &&
+  (match decodeNeg (adapterProfile cfg) input with
+   | .accept _ _ _ used pre =>
+     pre.isPrefixOf written && isFailureReply (written.drop pre.length) && consumed == used
+   | .reject why used pre =>
+     decide (consumed ≤ used) && pre.isPrefixOf written && replyFor why (written.drop pre.length))
+
 end Tunnox.C20
